@@ -106,10 +106,34 @@ def compile_histories(max_depth):
 
 
 # ---------------------------------------------------------------- (b)
+def rerun_family():
+    """Programs that leave the machine in every combination of unit mode, registers, variables, default colour,
+    pending output and loop/call state when they end or are stopped: all sequences of <= 4 statements over a
+    small alphabet after a prelude that makes every register non-zero."""
+    N = lambda v: ('num', v)
+    S = lambda x: ('str', x)
+    prelude = (('setreg', 'hue', N(120)), ('setreg', 'saturation', N(50)), ('setreg', 'brightness', N(25)),
+               ('setreg', 'kelvin', N(2700)), ('setreg', 'duration', N(1.5)), ('setreg', 'time', N(2)))
+    alpha = [('act', 'set', (('light', S('a')),)), ('act', 'set', (('all',),)), ('act', 'on', (('group', S('g')),)),
+             ('units', 'raw'), ('units', 'rgb'), ('units', 'logical'),
+             ('act', 'set', (('zone', S('s'), N(1), N(2)),)), ('act', 'set', (('matrix', S('m'), (N(0), None), None),)),
+             ('setdefault',), ('assign', 'x', ('reg', 'hue')), ('print', ('reg', 'hue')), ('wait',),
+             ('printf', '{} {}', (N(1), ('bin', '/', N(1), N(0)))), ('printf', '{}', (N(5),)),
+             ('setreg', 'hue', ('bin', '/', N(1), N(0)))]
+    for n in (1, 2, 3, 4):
+        for seq in itertools.product(alpha, repeat=n):
+            if n == 4 and not any(s[0] == 'units' for s in seq):
+                continue
+            if sum(1 for s in seq if s[0] == 'units') == 0 and n > 2:
+                continue
+            yield prelude + seq
+
+
 def _run_worker(rank, n, stride):
     w = world.World(world.POP_MIXED)
     st = dict(programs=0, runs=0, steps=0, traces=set(), viol={})
     gens = itertools.chain(
+        ((0, p) for p in rerun_family()),
         itertools.islice(gen_k.programs(5), 0, None, stride),
         itertools.islice(gen_v.programs(2, world.POP_MIXED), 0, None, max(1, stride // 2)),
         itertools.islice(gen_x.programs(3, world.POP_MIXED), 0, None, max(1, stride // 4)))
@@ -134,7 +158,15 @@ def _run_worker(rank, n, stride):
         m = job._machine
         w.reset()
         r1 = w.run_program(job.program, cap=3000, machine=m)
-        if r1.abort or r1.capped or r1.raised:
+        if r1.capped or r1.raised:
+            continue
+        if r1.abort:
+            # a run that ends in a script-level error: the same job run again must behave the same
+            w.reset()
+            r2 = w.run_program(job.program, cap=3000, machine=m)
+            st['runs'] += 2
+            if r2.trace != r1.trace or (r2.abort or (None,))[1:] != r1.abort[1:]:
+                bad('run-after-failed-run-differs', text, _first_diff(r1.trace, r2.trace, None))
             continue
         t1 = r1.trace
         nsteps = r1.steps
@@ -149,10 +181,13 @@ def _run_worker(rank, n, stride):
         for k in range(1, nsteps + 1):
             w.reset()
             rs = w.run_program(job.program, cap=3000, machine=m, stop_at=k)
-            if rs.trace != t1[:len(rs.trace)] and not rs.abort:
-                # a stopped run is a prefix of the complete one (final flush aside)
-                if [e for e in rs.trace if e[0] != 'flush'] != [e for e in t1 if e[0] != 'flush'][:len([e for e in rs.trace if e[0] != 'flush'])]:
-                    bad('stopped-run-not-a-prefix', text, 'stop at %d: %s' % (k, _first_diff(t1, rs.trace, rs.abort)))
+            if not rs.abort:
+                # commands and delays of a stopped run are a prefix of the complete run's (what a half-collected
+                # print flushes when the run is cut short is not specified and not compared)
+                keep = lambda tr: [e for e in tr if e[0] in ('dev', 'all', 'wait', 'wait_until')]
+                a, b = keep(rs.trace), keep(t1)
+                if a != b[:len(a)]:
+                    bad('stopped-run-not-a-prefix', text, 'stop at %d: %s' % (k, _first_diff(b, a, None)))
             w.reset()
             ra = w.run_program(job.program, cap=3000, machine=m)
             st['runs'] += 2
